@@ -7,7 +7,7 @@ import shutil
 import sys
 import tempfile
 
-from core import Check, run_check, watchdog
+from core import tool, Check, run_check, watchdog
 import gen
 
 
@@ -125,7 +125,7 @@ def c14(ck, tmp):
             out = os.path.join(tmp, "fp.out")
             fasta = rng.random() < 0.5
             try:
-                find_path.run(gfa, pf, output=out, fasta=fasta)
+                tool("find_path", gfa_path=gfa, input_path=pf, output=out, fasta=fasta)
                 cli = open(out).read().split("\n")
                 if cli and cli[-1] == "":
                     cli.pop()
